@@ -20,7 +20,7 @@ func c15E2E(c *Ctx) {
 
 func c15E2EOnce(c *Ctx, rep int) {
 	const rate, burst = 10, 40
-	b, err := NewBed(c, fmt.Sprintf("limiter%d", rep), BedOpts{Upstreams: []string{"pipe"}, ClientAddrHeader: "X-Client-Addr",
+	b, err := NewBed(c, fmt.Sprintf("limiter%d", rep), BedOpts{Upstreams: []string{"pipe", "tcp"}, ClientAddrHeader: "X-Client-Addr", Listeners: append(append([]string{}, allListeners...), "udpmr"),
 		Limiter: fmt.Sprintf("  client:\n    limit: %d\n    burst: %d\n", rate, burst)}) // masks omitted: /24 and /48
 	if err != nil {
 		c.startFailure(err, "c15-e2e")
@@ -90,6 +90,77 @@ func c15E2EOnce(c *Ctx, rep int) {
 	}
 	c.Ev.Count("e2e_udp_flood_admitted", int64(admitted))
 	c.Ev.Count("e2e_udp_flood_refused", int64(refused))
+	// ---- the same flood through the UDP listener on the wildcard address (multi_routes): a REFUSED
+	// answer, like any other, has to come from the address the client talks to
+	{
+		ip := fmt.Sprintf("127.%d.40.1", oct)
+		mc, err := dnsclient.DialUDP(ip, b.L["udpmr"])
+		if err == nil {
+			for i := 0; i < nFlood; i++ {
+				mc.Send(mkQuery(uint16(i+1), fmt.Sprintf("ok-mr%dr%d.pipe.test.", i, rep), dns.TypeA, dns.ClassINET, false))
+				time.Sleep(time.Millisecond)
+			}
+			time.Sleep(400 * time.Millisecond)
+			mAdm, mRef := 0, 0
+			for _, p := range mc.Received() {
+				m := new(dns.Msg)
+				if m.Unpack(p.Data) != nil {
+					continue
+				}
+				c.Ev.Eval(1)
+				if m.Rcode == dns.RcodeRefused {
+					mRef++
+				} else if m.Rcode == dns.RcodeSuccess {
+					mAdm++
+				}
+			}
+			mc.Close()
+			switch {
+			case mAdm+mRef < nFlood*9/10:
+				c.Violation("e2e:refused-query-dropped:udp-multi-routes", fmt.Sprintf("UDP listener with multi_routes, client talking to 127.0.0.2: %d of %d flood queries got a response from that address (admitted %d, REFUSED %d)", mAdm+mRef, nFlood, mAdm, mRef), map[string]any{"admitted": mAdm, "refused": mRef})
+			case mRef == 0:
+				c.Violation("e2e:limiter-inactive:udp-multi-routes", "flood through the multi_routes UDP listener was never refused", map[string]any{"admitted": mAdm})
+			default:
+				c.Ev.Distinct("e2e", "udp-multi-routes-flood")
+				c.Ev.Count("e2e_udpmr_flood_refused", int64(mRef))
+			}
+		}
+	}
+	// ---- failing upstream: queries whose upstream exchange fails are charged like any other; the
+	// bucket still empties
+	{
+		ip := fmt.Sprintf("127.%d.41.1", oct)
+		fc, err := dnsclient.DialUDP(ip, b.L["udp"])
+		if err == nil {
+			tf := time.Now()
+			for i := 0; i < nFlood; i++ {
+				fc.Send(mkQuery(uint16(i+1), fmt.Sprintf("close-ff%dr%d.tcp.test.", i, rep), dns.TypeA, dns.ClassINET, false))
+				time.Sleep(2 * time.Millisecond)
+			}
+			time.Sleep(800 * time.Millisecond)
+			win := time.Since(tf)
+			fAdm, fRef := 0, 0
+			for _, p := range fc.Received() {
+				m := new(dns.Msg)
+				if m.Unpack(p.Data) != nil {
+					continue
+				}
+				c.Ev.Eval(1)
+				if m.Rcode == dns.RcodeRefused {
+					fRef++
+				} else {
+					fAdm++ // SERVFAIL: admitted, forwarded, failed
+				}
+			}
+			fc.Close()
+			if bound := float64(burst) + rate*win.Seconds() + 1; float64(fAdm) > bound {
+				c.Violation("e2e:conservation:failing-upstream", fmt.Sprintf("%d queries of one /24 admitted in %v with limit %d burst %d (bound %.1f) while their upstream exchanges failed (REFUSED %d)", fAdm, win, rate, burst, bound, fRef), map[string]any{"admitted": fAdm, "refused": fRef})
+			} else if fRef > 0 {
+				c.Ev.Distinct("e2e", "failing-upstream-flood")
+				c.Ev.Count("e2e_failing_upstream_flood_refused", int64(fRef))
+			}
+		}
+	}
 	// ---- stream floods: 80 pipelined queries on one connection, each from its own /24. Every query is
 	// answered (served or REFUSED) with a well-formed frame on that connection, REFUSED ones are not
 	// forwarded, and the admitted ones respect the bucket.
